@@ -200,6 +200,8 @@ class Evaluator:
         for t, names in _SAFE_METHODS.items():
             if isinstance(v, t) and n.attr in names:
                 return getattr(v, n.attr)
+        if isinstance(v, (int, float)) and n.attr in ("astype", "item"):
+            return safe(lambda *a, **k: v)   # a number produced by an array reduction stands for the numpy scalar: conversions keep the value
         if v is dict and n.attr == "fromkeys":
             return dict.fromkeys
         if isinstance(v, dict) and n.attr in v and v.get("__namespace__"):
